@@ -989,7 +989,7 @@ def g1_configs(quick):
                     Fields=["tick", "n"] if q else ["n", "tick", "bump", "__typename"], LeafOnly=["tick", "n", "bump", "__typename"], Conds=[] if q else ["Subscription"])
     # several operations sharing fragments that use a variable: 5.8.3 holds per operation through transitively spread fragments
     # (an operation that defines $v next to one that does not, a fragment reached directly and through another fragment)
-    c["opvars"] = dict(BASE, MaxNodes=4 if q else 5, MaxSecs=4, MaxArgs=1, MaxVars=2 if q else 3, OpHeads=["query:Q", "query:R"] if q else ["query:Q", "query:R", "query:S"],
+    c["opvars"] = dict(BASE, MaxNodes=3 if q else 4, MaxSecs=3 if q else 4, MaxArgs=1, MaxVars=1, OpHeads=["query:Q", "query:R"],
                        Fields=["fi"], LeafOnly=["fi"], Conds=["Query"], Inline=0, FragSeq=("F1", "F2"), Spreads=["F1", "F2"], ArgPool=["x=$v"], VarPool=["v|Int||"])
     return c
 
